@@ -231,7 +231,9 @@ def check(case):
     role = {"a": "source", "b": "selection", "c": "selection-of-selection"}[tgt]
     # which arrays are (transitively) derived from the target
     derived = {"a": {"a", "b", "c"}, "b": {"b", "c"}, "c": {"c"}}[tgt]
-    later_write = any(o[0] == "write" for o in prog[case["pos"]:])
+    # a write follows an inserted read (either of the two when a second read is inserted: both target the same array)
+    first_read = min([case["pos"]] + ([case["second"][0]] if "second" in case else []))
+    later_write = any(o[0] == "write" for o in prog[first_read:])
     is_sel = tgt in ("b", "c") and any(o[0] == "sel" and o[1] == tgt and not (isinstance(o[3], dict) and "ellipsis" in o[3])
                                        for o in prog)
     if is_sel and later_write and set(diff) <= derived and base["log"] == alt["log"] or (
